@@ -108,6 +108,26 @@ pub fn expected_blocks(world: &World) -> Vec<(u64, String, Vec<(String, Value)>)
     v
 }
 
+/// `expected_blocks` plus, for blocks built by brc20_initialise (which hands no receipt to the
+/// indexer), the receipts served for the transactions the block lists.
+pub fn expected_blocks_with_genesis(inst: &mut Inst, world: &World) -> Vec<(u64, String, Vec<(String, Value)>)> {
+    let mut exp = expected_blocks(world);
+    for r in &world.recs {
+        let is_init = r.close.as_ref().map(|c| c.call.method == "brc20_initialise").unwrap_or(false);
+        if !is_init {
+            continue;
+        }
+        let blk = q(inst, "eth_getBlockByNumber", json!([format!("{}", r.height), false]));
+        if let Some(e) = exp.iter_mut().find(|(h, _, _)| *h == r.height) {
+            for th in res(&blk)["transactions"].as_array().cloned().unwrap_or_default() {
+                let rc = q(inst, "eth_getTransactionReceipt", json!([th]));
+                e.2.push(("BRC20_CONTROLLER_INIT".to_string(), res(&rc).clone()));
+            }
+        }
+    }
+    exp
+}
+
 pub fn check_chain(inst: &mut Inst, world: &World) -> Vec<(String, String)> {
     let mut bad: Vec<(String, String)> = Vec::new();
     let mut fail = |k: &str, d: String| bad.push((k.to_string(), d));
